@@ -984,7 +984,7 @@ pub fn run(cx: &mut Ctx) {
     cx.check(
         "float-printers",
         "1-48 finite doubles per case through 15 printer routes each: jq to_json / stream_owned_value_json_jq (root, nested), yq JSON (format_float_with_fraction, format_float_yq, StreamableValue::stream_json root/nested), yq YAML (format_float_with_fraction, format_float_yq, format_float_yq_yaml, format_float_yq_yaml_nested, StreamableValue::stream_yaml root / sequence item / mapping value); JSON routes must print a JSON number, YAML routes a core-schema number that the harness and resolve_plain both read as the source double",
-        Budget { quick: 40_000, thorough: 3_000_000, max_len: 1024 },
+        Budget { quick: 40_000, thorough: 2_000_000, max_len: 1024 },
         |u, st| {
             let n = u.range(1, 48);
             let mut vals = vec![];
@@ -1042,7 +1042,7 @@ pub fn run(cx: &mut Ctx) {
     cx.check(
         "literal-printers",
         "1-24 JSON-grammar literals per case (finite values only) through format_number_jq_compat, from_number_bytes -> to_json / stream_owned_value_json_jq / into_plain_number, yq echo (stream_json, stream_yaml) and yq canonicalisation (from_number_literal_plain -> stream_json / stream_yaml root and nested); then the whole batch as one JSON document through the generic evaluator with `.`, `.[]`, map(.+0), map(.*1), map(-(-.)), tojson and map(tostring); every printed number must read back as the literal's double",
-        Budget { quick: 40_000, thorough: 2_000_000, max_len: 2048 },
+        Budget { quick: 40_000, thorough: 1_000_000, max_len: 2048 },
         |u, st| {
             let n = u.range(1, 24);
             let mut lits: Vec<(String, f64)> = vec![];
